@@ -221,6 +221,25 @@ def check_case(ctx, case, rng):
                         viol("construct", "positional-construction-differs-from-keyword-construction", npos=npos)
         except Exception as e:  # noqa: BLE001
             viol("construct", f"construction-raises:{type(e).__name__}", subset=subset, error=lib.exc_sig(e))
+        # the fields folded in from anonymous structure members are fields of the structure too: by keyword = assigned
+        folded = [n for n in T.fields if n not in T.lookup and n != "_"]
+        if folded and not has_union:
+            pick = [n for n in folded if rng.random() < 0.6] or folded[:1]
+            try:
+                vals = {n: getattr(a, n) for n in pick}
+                if not any(isinstance(v, lib.Pointer) for v in vals.values()):
+                    x = T(**vals)
+                    y = T()
+                    for n, v in vals.items():
+                        setattr(y, n, v)
+                    ctx.evaluation(key + ("construct-folded", tuple(pick)))
+                    ctx.cell("folded-fields-by-keyword")
+                    if not (x == y) or x.dumps() != y.dumps() or any(not (getattr(x, n) == v) and v == v for n, v in vals.items()):
+                        viol("construct", "keyword-construction-with-folded-fields-differs-from-assignment", subset=pick)
+                    else:
+                        ctx.event("folded_keyword_constructions")
+            except Exception as e:  # noqa: BLE001
+                viol("construct", f"construction-with-folded-fields-raises:{type(e).__name__}", subset=pick, error=lib.exc_sig(e))
         # a default instance that was modified (also through the forwarded fields of an anonymous member) does
         # not change what a later construction returns
         try:
